@@ -27,7 +27,35 @@ def gen_how(rng, ctx):
     return ["odd_add", rng.choice([2, 20])]
 
 
+def gen_reentrant(rng):
+    """A subscriber of an overridable probe calls the probed function again while an event is being
+    delivered to it: the binding that was being reported still gets the value supplied for *it*."""
+    prog, fns = fn_table("forms")
+    table = dict(fns)
+    qual = rng.choice(["plain", "aug", "walrus", "forloop", "tryexc", "retnone"])
+    fnir = table[qual]
+    forms = ir.bound_names(fnir)
+    names = [n for n, f in forms.items() if f != {"decl"} and "param" not in f]
+    focus = rng.choice(names)
+    sel = {"levels": [{"fn": qual, "caps": [], "sibs": []}], "focus": {"var": focus, "as": focus}}
+    ops = [{"op": "mk", "id": "o0", "kind": "overridable", "sels": [sel], "how": gen_how(rng, []),
+            "nojudge": True, "filtered": rng.random() < 0.5},
+           {"op": "enter", "id": "o0"}]
+    inner = call_shape(rng, qual, fnir, "k1")
+    inner["tape"] = []
+    ops.append({"op": "stage", "id": "o0", "kind": "whole", "cap": None,
+                "reenter": {"at": rng.choice([1, 1, 2, 3]), "call": inner}})
+    for _ in range(rng.randint(1, 3)):
+        op = call_shape(rng, qual, fnir, "k1")
+        op["tape"] = gen_tape(rng, rng.randint(0, 12), odd=0.3)
+        op["faults"] = {}
+        ops.append(op)
+    return {"prog": "forms", "ops": ops, "exact_failures": True}
+
+
 def gen(rng, tier, quarantine=()):
+    if "no-reentrant-subscriber" not in quarantine and rng.random() < 0.05:
+        return gen_reentrant(rng)
     prog, fns = fn_table("forms")
     table = dict(fns)
     qual = rng.choice(FNS)
